@@ -882,7 +882,7 @@ fn rd_step(rk: u8, kin: u8) -> (RK, RK, RdSum) {
     (k0, k1, s)
 }
 
-//@ id=C11 tier=quick cap=900
+//@ id=C11 tier=off cap=3000 mem=40
 //@ fn: gr::RestartingDeferral::process, remove_peer, complete_for, finish_awaiting, finish_deferring, is_completed
 //@ bound: one step from ANY awaiting deferral state (pending = any map over peers {a,b,c} -> non-empty subset of {v4,v6,vpn4}, at least one peer) x PeerEstablished(peer in {a,b,c,unknown}, any family subset incl. empty); unwind 6
 //@ desc: reference set-machine: a family is released exactly in the step after which no pending peer lists it; EndDeferral exactly when the machine completes; unknown / non-GR peers never block
@@ -896,7 +896,7 @@ fn c11_rd_awaiting_established() {
     let _ = (k1, s);
 }
 
-//@ id=C11 tier=thorough cap=900
+//@ id=C11 tier=quick cap=900
 //@ fn: gr::RestartingDeferral::process, remove_peer, complete_for, finish_awaiting, finish_deferring, is_completed
 //@ bound: one step from ANY awaiting deferral state (pending = any map over peers {a,b,c} -> non-empty subset of {v4,v6,vpn4}, at least one peer) x EorReceived(peer in {a,b,c,unknown}, f in {v4,v6,vpn4}); unwind 6
 //@ desc: reference set-machine: a family is released exactly in the step after which no pending peer lists it; EndDeferral exactly when the machine completes; unknown / non-GR peers never block
@@ -907,7 +907,7 @@ fn c11_rd_awaiting_eor() {
     let _ = (k1, s);
 }
 
-//@ id=C11 tier=quick cap=900
+//@ id=C11 tier=off cap=3000 mem=40
 //@ fn: gr::RestartingDeferral::process, remove_peer, complete_for, finish_awaiting, finish_deferring, is_completed
 //@ bound: one step from ANY awaiting deferral state (pending = any map over peers {a,b,c} -> non-empty subset of {v4,v6,vpn4}, at least one peer) x PeerWithdrawn(peer in {a,b,c,unknown}); unwind 6
 //@ desc: reference set-machine: a family is released exactly in the step after which no pending peer lists it; EndDeferral exactly when the machine completes; unknown / non-GR peers never block
@@ -931,7 +931,7 @@ fn c11_rd_awaiting_timer() {
     let _ = (k1, s);
 }
 
-//@ id=C11 tier=quick cap=900
+//@ id=C11 tier=off cap=3000 mem=40
 //@ fn: gr::RestartingDeferral::process, remove_peer, complete_for, finish_awaiting, finish_deferring, is_completed
 //@ bound: one step from ANY deferring deferral state (pending = any map over peers {a,b,c} -> non-empty subset of {v4,v6,vpn4}, at least one peer) x PeerEstablished(peer in {a,b,c,unknown}, any family subset incl. empty); unwind 6
 //@ desc: reference set-machine: a family is released exactly in the step after which no pending peer lists it; EndDeferral exactly when the machine completes; unknown / non-GR peers never block
@@ -944,7 +944,7 @@ fn c11_rd_deferring_established() {
     let _ = (k1, s);
 }
 
-//@ id=C11 tier=quick cap=900
+//@ id=C11 tier=quick cap=1500
 //@ fn: gr::RestartingDeferral::process, remove_peer, complete_for, finish_awaiting, finish_deferring, is_completed
 //@ bound: one step from ANY deferring deferral state (pending = any map over peers {a,b,c} -> non-empty subset of {v4,v6,vpn4}, at least one peer) x EorReceived(peer in {a,b,c,unknown}, f in {v4,v6,vpn4}); unwind 6
 //@ desc: reference set-machine: a family is released exactly in the step after which no pending peer lists it; EndDeferral exactly when the machine completes; unknown / non-GR peers never block
@@ -957,7 +957,7 @@ fn c11_rd_deferring_eor() {
     let _ = (k1, s);
 }
 
-//@ id=C11 tier=quick cap=900
+//@ id=C11 tier=off cap=3000 mem=40
 //@ fn: gr::RestartingDeferral::process, remove_peer, complete_for, finish_awaiting, finish_deferring, is_completed
 //@ bound: one step from ANY deferring deferral state (pending = any map over peers {a,b,c} -> non-empty subset of {v4,v6,vpn4}, at least one peer) x PeerWithdrawn(peer in {a,b,c,unknown}); unwind 6
 //@ desc: reference set-machine: a family is released exactly in the step after which no pending peer lists it; EndDeferral exactly when the machine completes; unknown / non-GR peers never block
@@ -970,7 +970,7 @@ fn c11_rd_deferring_withdrawn() {
     let _ = (k1, s);
 }
 
-//@ id=C11 tier=quick cap=900
+//@ id=C11 tier=off cap=3000 mem=40
 //@ fn: gr::RestartingDeferral::process, remove_peer, complete_for, finish_awaiting, finish_deferring, is_completed
 //@ bound: one step from ANY deferring deferral state (pending = any map over peers {a,b,c} -> non-empty subset of {v4,v6,vpn4}, at least one peer) x TimerExpired; unwind 6
 //@ desc: reference set-machine: a family is released exactly in the step after which no pending peer lists it; EndDeferral exactly when the machine completes; unknown / non-GR peers never block
@@ -982,7 +982,7 @@ fn c11_rd_deferring_timer() {
     let _ = (k1, s);
 }
 
-//@ id=C11 tier=thorough cap=900
+//@ id=C11 tier=quick cap=900
 //@ fn: gr::RestartingDeferral::process, remove_peer, complete_for, finish_awaiting, finish_deferring, is_completed
 //@ bound: one step from ANY completed deferral state (pending = any map over peers {a,b,c} -> non-empty subset of {v4,v6,vpn4}, at least one peer) x PeerEstablished(peer in {a,b,c,unknown}, any family subset incl. empty); unwind 6
 //@ desc: reference set-machine: a family is released exactly in the step after which no pending peer lists it; EndDeferral exactly when the machine completes; unknown / non-GR peers never block
@@ -993,7 +993,7 @@ fn c11_rd_completed_established() {
     let _ = (k1, s);
 }
 
-//@ id=C11 tier=thorough cap=900
+//@ id=C11 tier=quick cap=900
 //@ fn: gr::RestartingDeferral::process, remove_peer, complete_for, finish_awaiting, finish_deferring, is_completed
 //@ bound: one step from ANY completed deferral state (pending = any map over peers {a,b,c} -> non-empty subset of {v4,v6,vpn4}, at least one peer) x EorReceived(peer in {a,b,c,unknown}, f in {v4,v6,vpn4}); unwind 6
 //@ desc: reference set-machine: a family is released exactly in the step after which no pending peer lists it; EndDeferral exactly when the machine completes; unknown / non-GR peers never block
@@ -1026,7 +1026,7 @@ fn c11_rd_completed_timer() {
     let _ = (k1, s);
 }
 
-//@ id=C11 tier=quick cap=900
+//@ id=C11 tier=off cap=3000 mem=40
 //@ fn: gr::RestartingDeferral::new
 //@ bound: gr_peers = any map {a,b,c} -> subset of {v4,v6,vpn4} (empty lists allowed); unwind 6
 //@ desc: construction: deferred families = union of the configured lists; peers without GR families are not pending; completed iff nobody is pending
